@@ -51,7 +51,7 @@ M.contract('xtuml.meta.Class.__getattr__', [('self', INST), ('name', STR)], retu
                           'and not has_class_attr(self, self.__metaclass__.attributes[j][0]) for j in range(0, len(self.__metaclass__.attributes)))')],
            modifies=[],
            loops={0: Loop(inv={'no-earlier-declared-spelling': 'all(not same_name(_seq[i][0], name) for i in range(0, _i))',
-                               'iterates': '_seq == self.__metaclass__.attributes', 'uname': 'uname == upper(name)'})})
+                               'iterates': '_seq == self.__metaclass__.attributes'})})
 
 M.contract('xtuml.meta.Class.__setattr__', [('self', INST), ('name', STR), ('value', VAL)], returns=NONE,
            requires={'metaclass': 'self.__metaclass__ is not None'},
@@ -64,7 +64,7 @@ M.contract('xtuml.meta.Class.__setattr__', [('self', INST), ('name', STR), ('val
                           'and has_property(self, self.__metaclass__.attributes[j][0]) for j in range(0, len(self.__metaclass__.attributes)))')],
            modifies=['self.__dict__'],
            loops={0: Loop(inv={'no-earlier-declared-spelling': 'all(not same_name(_seq[i][0], name) for i in range(0, _i))',
-                               'iterates': '_seq == self.__metaclass__.attributes', 'uname': 'uname == upper(name)',
+                               'iterates': '_seq == self.__metaclass__.attributes',
                                'nothing-written-yet': 'same(self.__dict__, old(self.__dict__))'})})
 
 M.contract('xtuml.meta.Class.__delattr__', [('self', INST), ('name', STR)], returns=NONE,
@@ -74,7 +74,7 @@ M.contract('xtuml.meta.Class.__delattr__', [('self', INST), ('name', STR)], retu
            raises=[Raises('AttributeError', when='all(not same_name(k, name) for k in map_keys(self.__dict__))')],
            modifies=['self.__dict__'],
            loops={0: Loop(inv={'no-earlier-stored-spelling': 'all(not same_name(_seq[i], name) for i in range(0, _i))',
-                               'iterates': '_seq == map_keys(old(self.__dict__))', 'uname': 'uname == upper(name)',
+                               'iterates': '_seq == map_keys(old(self.__dict__))',
                                'nothing-removed-yet': 'same(self.__dict__, old(self.__dict__))'})})
 
 M.contract('xtuml.meta.MetaClass.attribute_type', [('self', MC), ('attribute_name', STR)], returns=VAL,
@@ -83,7 +83,7 @@ M.contract('xtuml.meta.MetaClass.attribute_type', [('self', MC), ('attribute_nam
                     'none-when-undeclared': 'implies(not is_declared(self, attribute_name), result is None)'},
            modifies=[],
            loops={0: Loop(inv={'no-earlier-declared-spelling': 'all(not same_name(_seq[i][0], old(attribute_name)) for i in range(0, _i))',
-                               'iterates': '_seq == self.attributes', 'uname': 'attribute_name == upper(old(attribute_name))'})})
+                               'iterates': '_seq == self.attributes'})})
 
 M.contract('xtuml.meta.MetaModel.find_metaclass', [('self', MM), ('kind', STR)], returns=MC,
            ensures={'class-registered-under-upper-case-name': 'result is self.metaclasses[upper(kind)]'},
